@@ -200,6 +200,12 @@ def rule3_signal(ctx, fl):
                 stray = [i for i in reachn if i in pushes]
                 ctx.ob('C05.3', '%s: empty => no push' % name, not stray,
                        'a signal with no waiter pushes nothing', loc=br.loc)
+                # ... and comes back: the empty result ends the call (it does not lead to another dequeue attempt)
+                again_ = [i for i in f.reachable_from(startn, include_start=True) if i in deqs]
+                ctx.ob('C05.3', '%s: empty => return' % name, not again_,
+                       'a signal / broadcast with no (more) waiter returns: the empty result never leads back to the dequeue '
+                       '(a wrong "woke one" result on the empty queue makes broadcast spin forever)', loc=br.loc,
+                       trace=[] if not again_ else lib.lines(f.witness_path(br, again_)))
         # at most one push per dequeue
         for p in pushes:
             again = [q for q in f.reachable_from(p, blocked=deqs) if q in pushes]
@@ -246,6 +252,8 @@ def run(ctx):
 
 SYNC = 'src/myth_sync_func.h'
 MUTANTS = [
+    {'name': 'wake_if_any reports a wake-up on the empty queue: broadcast never returns (hand mutant r6)', 'expect': 'C05.3',
+     'edits': [(SYNC, "  if (!to_wake) return 0;\t/* I did not wake up any */", "  if (!to_wake) return 1;\t/* I did not wake up any */")]},
     {'name': 'cond_wait refuses a mutex other than the one it saw first (seed4 C05/m2)', 'expect': 'C05.2',
      'edits': [(SYNC, "static inline int myth_cond_wait_body(myth_cond_t * cond, myth_mutex_t * mutex) {\n  myth_block_on_queue(cond->sleep_q, mutex);", "static inline int myth_cond_wait_body(myth_cond_t * cond, myth_mutex_t * mutex) {\n  static myth_mutex_t * bound;\n  if (bound && bound != mutex) return EINVAL;\n  bound = mutex;\n  myth_block_on_queue(cond->sleep_q, mutex);")]},
     {'name': 'signal returns early on a pending-wake flag (seed3 C05/m3)', 'expect': 'C05.3',
